@@ -689,3 +689,22 @@ Definition C02_full' : Prop := forall C o gen p x s R NR,
 Theorem C02_full'_holds : C02_full'.
 Proof. exact FullStatementsC02.epoch_full_corrected_holds. Qed.
 Print Assumptions C02_full'_holds.
+
+(* ==== added by agent "actbodies": the quota preparation of the epoch (purge_zero_offspring, run by [prepare]) is the
+   code of Population.purgeZeroOffspringSpecies, regenerated from neat/genetics/population.go on every run
+   (gen/QuotaPrep.v): under the invariant Part it returns, on the view of the population, the view of the model's result ==== *)
+From NeatModel Require GoHeap QuotaView QuotaPrep QuotaPrepAgree.
+Theorem C02_quota_preparation_is_the_translated_source :
+  forall (p : population) (generation : Z),
+    Part p ->
+    exists p' : population,
+      purge_zero_offspring p = Ok p' /\
+      exists r : QuotaView.qpop,
+        QuotaPrep.gen_purge_zero_offspring (QuotaPrepAgree.abs p) generation = Ok r /\
+        QuotaView.qp_organisms r = QuotaView.qp_organisms (QuotaPrepAgree.abs p') /\
+        QuotaView.qp_Organisms r = QuotaView.qp_Organisms (QuotaPrepAgree.abs p') /\
+        QuotaView.qp_Species r = QuotaView.qp_Species (QuotaPrepAgree.abs p') /\
+        (forall s, In s (p_species p' ++ p_detached p') ->
+                   GoHeap.gh_get (QuotaView.qp_species r) (sp_id s) = Ok (QuotaPrepAgree.sview s)).
+Proof. exact QuotaPrepAgree.gen_purge_zero_offspring_agrees. Qed.
+Print Assumptions C02_quota_preparation_is_the_translated_source.
